@@ -20,7 +20,7 @@ func init() {
 	})
 	register(&Rule{
 		ID:    "path/abort-before-backedge",
-		Text:  "every backward jump the compiler emits for a user-level loop (emitLoop) is preceded, in the same function, by the `if c.additionalAbortChecks { emit CHECK_ABORT }` guard, so every iteration of every unbounded loop passes a cancellation point",
+		Text:  "every backward jump the compiler emits for a user-level loop (emitLoop) is preceded, in the same function, by the `if c.additionalAbortChecks { emit CHECK_ABORT }` guard (or by a call of a helper whose body reaches that guard on every path), so every iteration of every unbounded loop passes a cancellation point",
 		Floor: 7,
 		Run:   runAbortBeforeBackedge,
 	})
@@ -164,13 +164,86 @@ func runAbortBeforeBackedge(c *Ctx) {
 			})
 			return emits
 		}
+		// a helper that does nothing but the guard (and does it on every
+		// path: no return in front of it) is as good as the guard itself
+		isGuardHelperCall := func(st ast.Stmt) bool {
+			es, ok := st.(*ast.ExprStmt)
+			if !ok {
+				return false
+			}
+			call, ok := es.X.(*ast.CallExpr)
+			if !ok {
+				return false
+			}
+			fn := Callee(info, call)
+			if fn == nil || recvNameOf(fn) != "BytecodeCompiler" {
+				return false
+			}
+			h := c.FuncOpt("compiler", "BytecodeCompiler", fn.Name())
+			if h == nil {
+				return false
+			}
+			// on every path on which the flag is set, CHECK_ABORT is emitted
+			// before the helper returns
+			type abSt struct{ emitted bool }
+			flagPolarity := func(cond ast.Expr) int {
+				e := ast.Unparen(cond)
+				neg := 1
+				for {
+					if u, ok := e.(*ast.UnaryExpr); ok && u.Op == token.NOT {
+						neg = -neg
+						e = ast.Unparen(u.X)
+						continue
+					}
+					break
+				}
+				if sel, ok := e.(*ast.SelectorExpr); ok && sel.Sel.Name == "additionalAbortChecks" {
+					return neg
+				}
+				return 0
+			}
+			missing := false
+			pe := &PathEval[abSt]{Info: info}
+			pe.Cond = func(s abSt, cond ast.Expr, branch bool) []abSt {
+				switch flagPolarity(cond) {
+				case 1:
+					if !branch {
+						return nil // flag not set: nothing is required
+					}
+				case -1:
+					if branch {
+						return nil
+					}
+				}
+				return []abSt{s}
+			}
+			pe.Call = func(s abSt, call *ast.CallExpr) []abSt {
+				if len(call.Args) >= 2 && constName(info, call.Args[1]) == "CHECK_ABORT" {
+					s.emitted = true
+				}
+				return []abSt{s}
+			}
+			pe.Return = func(s abSt, r *ast.ReturnStmt) []abSt {
+				if !s.emitted {
+					missing = true
+				}
+				return []abSt{s}
+			}
+			f := pe.Block(newSet(abSt{}), h.Decl.Body.List)
+			for s := range f.next {
+				if !s.emitted {
+					missing = true
+				}
+			}
+			return !missing && len(pe.Unsupported) == 0
+		}
 		walk = func(list []ast.Stmt) {
 			guarded := false
-			for _, st := range list {
-				if isGuard(st) {
+			for _, abSt := range list {
+				if isGuard(abSt) || isGuardHelperCall(abSt) {
 					guarded = true
 				}
-				if es, ok := st.(*ast.ExprStmt); ok {
+				if es, ok := abSt.(*ast.ExprStmt); ok {
 					if call, ok := es.X.(*ast.CallExpr); ok {
 						if fn := Callee(info, call); fn != nil && fn.Name() == "emitLoop" && FuncID(fn) == "compiler.BytecodeCompiler.emitLoop" {
 							n++
@@ -187,7 +260,7 @@ func runAbortBeforeBackedge(c *Ctx) {
 					}
 				}
 				// nested lists
-				ast.Inspect(st, func(x ast.Node) bool {
+				ast.Inspect(abSt, func(x ast.Node) bool {
 					switch y := x.(type) {
 					case *ast.BlockStmt:
 						walk(y.List)
